@@ -61,7 +61,7 @@ def cases(ctx):
                 yield {"kind": "rle_dense", "runs": [[v, 1] for v in vals], "dtype": "uint8"}
     while True:
         k = rng.choice(["rle_dense", "brle_dense", "rle_ops", "rle_ops", "brle_ops", "brle_ops", "binvox", "grid",
-                        "enc", "enc", "enc", "enc", "enc", "enc"])
+                        "enc", "enc", "enc", "enc", "enc", "enc", "viewmap"])
         ctx.count("kind:" + k)
         dt = rng.choice(list(DTYPES))
         if k == "rle_dense":
@@ -97,6 +97,19 @@ def cases(ctx):
             sign = [rng.choice([1, -1]) for _ in range(3)]
             yield {"kind": k, "shape": shape, "bits": [int(rng.random() < 0.5) for _ in range(n)], "scale": scale,
                    "perm": list(perm), "sign": sign, "t": [rng.randint(-5, 5) for _ in range(3)]}
+        elif k == "viewmap":
+            shape = rng.choice([[5], [2, 3], [2, 2, 3], [1, 4], [3, 1, 2], [2, 3, 4], [3, 3, 3], [4, 1, 3, 2]])
+            nd = len(shape)
+            n = int(np.prod(shape))
+            idx = [[rng.randrange(s) for s in shape] for _ in range(rng.randint(1, 6))]
+            axes = sorted(rng.sample(range(nd), rng.randint(1, nd)))
+            perm = list(range(nd))
+            rng.shuffle(perm)
+            divs = [d for d in range(1, n + 1) if n % d == 0]
+            a = rng.choice(divs)
+            new_shape = [a, n // a] if rng.random() < 0.6 else [n]
+            yield {"kind": k, "shape": shape, "idx": idx, "axes": axes, "perm": perm, "new_shape": new_shape,
+                   "flat_idx": [rng.randrange(n) for _ in range(4)], "data": [rng.randint(0, 3) for _ in range(n)]}
         else:
             shape = rng.choice([[5], [2, 3], [2, 2, 3], [1, 4], [3, 1, 2], [2, 3, 4], [3, 3, 3], [2, 2, 2]])
             n = int(np.prod(shape))
@@ -144,9 +157,37 @@ def _try(f):
         return {"err": err_kind(e)}
 
 
+def _view_maps(c):
+    """index maps of the real lazy view classes on a dense base (what gather_nd / sparse_indices go through)"""
+    from trimesh.voxel import encoding as E
+    shape = tuple(c["shape"])
+    arr = np.array(c["data"], dtype=np.int64).reshape(shape)
+    base = E.DenseEncoding(arr)
+    I = np.array(c["idx"], dtype=np.int64)
+    K = np.array(c["flat_idx"], dtype=np.int64)
+    o = {}
+    fl = E.FlippedEncoding(base, tuple(c["axes"]))
+    o["flip_to"] = np.asarray(fl._to_base_indices(I)).tolist()
+    o["flip_from"] = np.asarray(fl._from_base_indices(I)).tolist()
+    o["flip_entries"] = [int(np.flip(arr, tuple(c["axes"]))[tuple(i)]) for i in c["idx"]]
+    ft = E.FlattenedEncoding(base)
+    o["flat_to"] = np.asarray(ft._to_base_indices(K)).tolist()
+    o["flat_from"] = np.asarray(ft._from_base_indices(I)).reshape(-1).tolist()
+    sh = E.ShapedEncoding(base, tuple(c["new_shape"]))
+    o["shaped_from"] = np.asarray(sh._from_base_indices(K)).tolist()
+    tr = E.TransposedEncoding(base, c["perm"])
+    o["transposed_shape"] = [int(x) for x in tr.shape]
+    o["transpose_to"] = np.asarray(tr._to_base_indices(I)).tolist()
+    o["transpose_from"] = np.asarray(tr._from_base_indices(I)).tolist()
+    o["entries"] = [int(arr[tuple(i)]) for i in c["idx"]]
+    return o
+
+
 def run_case(c):
     from trimesh.voxel import runlength as rl
     k = c["kind"]
+    if k == "viewmap":
+        return _view_maps(c)
     if k == "rle_dense":
         d = np.array(_expand(c["runs"]), dtype=np.int64)
         r = rl.dense_to_rle(d, dtype=getattr(np, c["dtype"]))
@@ -336,6 +377,19 @@ def oracle(c, o):
     k = c["kind"]
     if "err" in o:
         return {"kind": k, "fail": "raised", "err": o["err"]}
+    if k == "viewmap":
+        # the property's own statement for views: reading the view = reading the dense numpy result
+        arr = np.array(c["data"], dtype=np.int64).reshape(c["shape"])
+        for n_, i_ in enumerate(c["idx"]):
+            if o["flip_entries"][n_] != int(arr[tuple(o["flip_to"][n_])]):
+                return {"kind": k, "fail": "flip-index-map-reads-another-entry"}
+        flat = arr.reshape(-1)
+        for n_, q in enumerate(c["flat_idx"]):
+            if int(arr[tuple(o["flat_to"][n_])]) != int(flat[q]):
+                return {"kind": k, "fail": "flat-index-map-reads-another-entry"}
+            if int(arr.reshape(c["new_shape"])[tuple(o["shaped_from"][n_])]) != int(flat[q]):
+                return {"kind": k, "fail": "reshape-index-map-reads-another-entry"}
+        return None
     if k == "rle_dense":
         d = _expand(c["runs"])
         if o["dense"] != d or _dec_rle(o["rle"]) != d:
@@ -458,6 +512,11 @@ def model_request(c, o):
         return {"p": "C13", "op": "rle_ops", "m": m, "rle": c["rle"], "idx": c["idx"], "mask": c["mask"]}
     if k == "brle_ops":
         return {"p": "C13", "op": "brle_ops", "m": m, "brle": c["brle"], "idx": c["idx"], "mask": c["mask"]}
+    if k == "viewmap":
+        if "err" in o:
+            return None
+        return {"p": "C13", "op": "viewmap", "shape": c["shape"], "new_shape": c["new_shape"], "axes": c["axes"],
+                "perm": c["perm"], "idx": c["idx"], "flat_idx": c["flat_idx"], "data": c["data"]}
     if k == "binvox":
         # binvox flattens the (x, z, y)-ordered grid; use the implementation's own flattening order
         d = np.array(c["bits"], dtype=bool).reshape(c["shape"])
@@ -470,6 +529,16 @@ def compare(c, o, m):
     if "err" in m and len(m) == 1:
         return "model error: " + str(m["err"])
     k = c["kind"]
+    if k == "viewmap":
+        pairs = [("flip_to", "flip"), ("flip_from", "flip"), ("flat_to", "unravel"), ("flat_from", "ravel"),
+                 ("shaped_from", "unravel_new"), ("transposed_shape", "transposed_shape"),
+                 ("transpose_to", "take_perm"), ("transpose_from", "take_inv"), ("entries", "entries")]
+        if not all(m["in_range"]):
+            return "generator produced an out-of-range index"
+        for a, b in pairs:
+            if o[a] != m[b]:
+                return f"view index map {a}: impl={o[a]} model {b}={m[b]}"
+        return None
     if k == "rle_dense":
         return None if m["rle"] == o["rle"] else f"rle model={m['rle'][:8]} impl={o['rle'][:8]}"
     if k == "brle_dense":
